@@ -611,6 +611,13 @@ impl RawAutomaton {
         // forward order would miss some transitions when some initial states
         // happen to be final as well.
         for automaton in automata.iter().rev() {
+            // An automaton whose initial state is final and has no outgoing transition
+            // accepts exactly the empty word: concatenating it changes nothing.
+            if automaton.final_states.contains(&automaton.initial_state)
+                && automaton.transitions[automaton.initial_state].is_empty()
+            {
+                continue;
+            }
             let nb_states = concat_automaton.transitions.len();
             let (mut transitions, _) = RawAutomaton::filter_map_transitions(
                 &automaton.transitions,
